@@ -591,6 +591,56 @@ fn main() {
             }
         },
     );
+    // every pair of small 2-D / 3-D arrays over two values: equal lanes, equal planes, identical arrays,
+    // in shapes whose axis lengths all differ
+    let ccases = [vec![2usize, 3], vec![3, 2], vec![1, 4], vec![2, 1, 3]].into_iter().flat_map(|shape| {
+        let n: usize = shape.iter().product();
+        (0u32..(1 << n)).flat_map(move |ma| {
+            let shape = shape.clone();
+            (0u32..(1 << n)).map(move |mb| (shape.clone(), ma, mb))
+        })
+    });
+    rep.run_sub(
+        "complete-small-nd",
+        "every pair of arrays of shape (2,3), (3,2), (1,4), (2,1,3) over two values (all 4096 pairs per 6-element shape), i32 and f64, row-major against column-major operands, dynamic and static dimensionality: all ten measures against the logical-index reference",
+        ccases,
+        |(shape, ma, mb), lx| {
+            let n: usize = shape.iter().product();
+            lx.nontrivial(ma != mb);
+            macro_rules! go {
+                ($t:ty) => {{
+                    let a: Vec<$t> = (0..n).map(|i| <$t as DevElem>::mk(if ma >> i & 1 == 1 { 3 } else { 1 })).collect();
+                    let b: Vec<$t> = (0..n).map(|i| <$t as DevElem>::mk(if mb >> i & 1 == 1 { 3 } else { 1 })).collect();
+                    let w = want_of(&a, &b);
+                    let maxv = <$t as DevElem>::mk(3);
+                    lx.single(|lx| {
+                        let aa = ndarray::ArrayD::from_shape_vec(IxDyn(shape), a.clone()).unwrap();
+                        let bb = ndarray::ArrayD::from_shape_vec(IxDyn(shape), b.clone()).unwrap();
+                        // column-major copy of b (same logical content)
+                        let bf = bb.clone().reversed_axes().as_standard_layout().into_owned().reversed_axes();
+                        let ctx = || format!("shape {:?}: a = {:?}, b = {:?} (logical row-major order)", shape, a, b);
+                        let mut h = 0;
+                        for (k, other) in [&bb, &bf].iter().enumerate() {
+                            match measure(&aa, *other, maxv.clone()) {
+                                Ok(m) => h ^= judge(&m, &w, &maxv, &ctx, lx).rotate_left(k as u32),
+                                Err(e) => lx.fail("C09/failed", || format!("[{}] {}; {}", <$t as DevElem>::NAME, e, ctx())),
+                            }
+                        }
+                        if shape.len() == 2 {
+                            let (sa, sb) = (aa.view().into_dimensionality::<Ix2>().unwrap(), bb.view().into_dimensionality::<Ix2>().unwrap());
+                            match measure(&sa, &sb, maxv.clone()) {
+                                Ok(m) => h ^= judge(&m, &w, &maxv, &ctx, lx),
+                                Err(e) => lx.fail("C09/failed", || format!("[{}] Ix2: {}; {}", <$t as DevElem>::NAME, e, ctx())),
+                            }
+                        }
+                        h
+                    });
+                }};
+            }
+            go!(i32);
+            go!(f64);
+        },
+    );
     // 3x3 matrices against their transpose (9 cells: every matrix over 3 of the 4 values)
     let tcases = sequences(9, 3).flat_map(|d| (0..2u8).map(move |ty| AliasCase { digits: d.clone(), kind: 3, ty: ty * 2 }));
     rep.run_sub(
